@@ -346,6 +346,89 @@ theorem sum_dot_vsum (e : List K) (D : Nat) (he : e.length = D) (ds : List (List
     simp only [vsum, List.map_cons, List.sum_cons, List.foldr_cons, h1]
     rw [dot_vadd _ _ _ (by rw [hd, he]) (by rw [h2, he])]
 
+theorem vadd_assoc (a b c : List K) : vadd (vadd a b) c = vadd a (vadd b c) := by
+  induction a generalizing b c with
+  | nil => simp [vadd]
+  | cons x a ih =>
+    cases b with
+    | nil => simp [vadd]
+    | cons y b =>
+      cases c with
+      | nil => simp [vadd]
+      | cons z c =>
+        have := ih b c
+        simp only [vadd] at this
+        simp only [vadd, List.zipWith_cons_cons, this, add_assoc]
+
+theorem vsum_append (m : Nat) (l1 l2 : List (List K)) (h2 : ∀ c ∈ l2, c.length = m) :
+    vsum m (l1 ++ l2) = vadd (vsum m l1) (vsum m l2) := by
+  induction l1 with
+  | nil =>
+    have := vadd_vzero_left m (vsum m l2) (vsum_length m l2 h2)
+    simpa [vsum] using this.symm
+  | cons c l1 ih =>
+    have e : vsum m (c :: (l1 ++ l2)) = vadd c (vsum m (l1 ++ l2)) := rfl
+    have e2 : vsum m (c :: l1) = vadd c (vsum m l1) := rfl
+    rw [List.cons_append, e, ih, e2, vadd_assoc]
+
+theorem vsum_map_cons (D : Nat) (t : K) (R : List (List K)) :
+    vsum (D + 1) (R.map (t :: ·)) = ((R.length : K) * t) :: vsum D R := by
+  induction R with
+  | nil => simp [vsum, vzero, List.replicate_succ]
+  | cons q R ih =>
+    have e : vsum (D + 1) ((q :: R).map (t :: ·)) = vadd (t :: q) (vsum (D + 1) (R.map (t :: ·))) := rfl
+    have e2 : vsum D (q :: R) = vadd q (vsum D R) := rfl
+    rw [e, ih, e2]
+    simp only [vadd, List.zipWith_cons_cons, List.length_cons]
+    congr 1
+    push_cast; ring
+
+theorem tensorPts_length {α : Type} : ∀ (axes : List (List α)), ∀ q ∈ tensorPts axes, q.length = axes.length := by
+  intro axes
+  induction axes with
+  | nil => intro q hq; simp [tensorPts] at hq; subst hq; rfl
+  | cons ax rest ih =>
+    intro q hq
+    simp only [tensorPts, List.mem_flatMap, List.mem_map] at hq
+    obtain ⟨t, _, q', hq', rfl⟩ := hq
+    simp [ih q' hq']
+
+theorem gridPts_length {α : Type} (axes : List (List α)) : ∀ q ∈ gridPts axes, q.length = axes.length := by
+  intro q hq
+  simp only [gridPts, List.mem_map] at hq
+  obtain ⟨q', hq', rfl⟩ := hq
+  simpa using tensorPts_length axes.reverse q' hq'
+
+theorem vsum_tensorPts_zero (axes : List (List K)) (h : ∀ ax ∈ axes, ax.sum = 0) :
+    vsum axes.length (tensorPts axes) = vzero axes.length := by
+  induction axes with
+  | nil => simp [tensorPts, vsum, vzero, vadd]
+  | cons ax rest ih =>
+    have ihr := ih (fun a ha => h a (by simp [ha]))
+    have hlen := tensorPts_length rest
+    have key : ∀ l : List K, vsum (rest.length + 1) (l.flatMap fun t => (tensorPts rest).map (t :: ·))
+        = (((tensorPts rest).length : K) * l.sum) :: vzero rest.length := by
+      intro l
+      induction l with
+      | nil => simp [vsum, vzero, List.replicate_succ]
+      | cons t l ihl =>
+        rw [List.flatMap_cons, vsum_append, vsum_map_cons, ihl, ihr]
+        · simp only [vadd, List.zipWith_cons_cons, List.sum_cons]
+          have := vadd_vzero_left rest.length (vzero rest.length : List K) (by simp [vzero])
+          simp only [vadd] at this
+          rw [this]
+          congr 1
+          ring
+        · intro c hc
+          simp only [List.mem_flatMap, List.mem_map] at hc
+          obtain ⟨t', _, q', hq', rfl⟩ := hc
+          simp [hlen q' hq']
+    have := key ax
+    rw [h ax (by simp)] at this
+    simp only [tensorPts, List.length_cons]
+    rw [this]
+    simp [vzero, List.replicate_succ]
+
 theorem sum_map_affine_form (l : List ℕ) (f : ℕ → K) (d e : K) :
     (l.map fun j => f j / d - e).sum = (l.map f).sum / d - l.length * e := by
   induction l with
